@@ -322,17 +322,30 @@ def compiler_domains(w: World) -> dict[str, dict]:
         d = None
         i2b_targets = {n.targets[0].id for n in src_nodes if isinstance(n, ast.Assign) and isinstance(n.targets[0], ast.Name)
                        and isinstance(n.value, ast.Call) and dotted(n.value.func) == 'int_to_bytes'}
-        has_i2b = bool(i2b_targets)
+        has_i2b = any(isinstance(n, ast.Call) and dotted(n.func) == 'int_to_bytes' for n in src_nodes)
         one_byte = any(isinstance(n, ast.Assert) and
                        any(ast.unparse(n.test).replace(' ', '') == f'len({t})==1' for t in i2b_targets)
                        for n in src_nodes)
+        # ranges the helper spells out with comparisons, derived along its non-raising paths (C11's derivation)
+        from .rules_c11 import helper_decimal_domains
+        try:
+            spelled = helper_decimal_domains(w, helper)
+        except AnalysisError:
+            spelled = []
+        signed = [(lo, hi) for codec, _, lo, hi in spelled if codec == 's']
+        unsigned1 = [(lo, hi) for codec, _, lo, hi in spelled if codec == 'u1']
         cmps = [ast.unparse(n).replace(' ', '') for n in src_nodes if isinstance(n, ast.Compare)]
-        u8 = any(_re.fullmatch(r'0<=\w+<256', c) for c in cmps)
         lt256 = [c for c in cmps if _re.fullmatch(r'\w+<256', c)]
         if has_i2b and one_byte:
             d = 's8'
-        elif u8:
-            d = 'u8'
+        elif signed:
+            lo, hi = max(l for l, _ in signed), min(h for _, h in signed)
+            d = 's8' if (lo, hi) == (-128, 127) else f'only [{lo}, {hi}]'
+        elif unsigned1:
+            # n.to_bytes(1, 'big') raises outside [0, 255] by itself: guards can only narrow
+            lo = max([l for l, _ in unsigned1 if l is not None] + [0])
+            hi = min([h for _, h in unsigned1 if h is not None] + [255])
+            d = 'u8' if (lo, hi) == (0, 255) else f'only [{lo}, {hi}]'
         elif has_i2b:
             d = 'any'
         elif len(lt256) >= 2:
@@ -470,7 +483,9 @@ def _formatters(w, rep, cfg, kinds, armtag, names, body, reads, tape_var, comp_d
                     rep.check('C12.R6', f'parsing.decompile_script|case|{nm}|operand#{i + 1}', ok, line=r.line,
                               file=RELP, why='' if ok else
                               f'{nm} prints its operand as {fmt} (d{"0..255" if fmt == "u8" else "-128..127"}) but '
-                              f'the compiler helper {cd["helper"]} accepts {acc}: values >= 128 do not recompile',
+                              f'the compiler helper {cd["helper"]} accepts {acc}: ' +
+                              ('values >= 128 do not recompile' if not str(acc).startswith('only') else
+                               'a listing the decompiler prints for some operand byte does not compile again'),
                               facts={'printed': fmt, 'accepted': acc, 'helper': cd['helper']})
         elif id(call) in used_as_size:
             rep.check('C12.R5', tag, True, line=r.line, file=RELP, facts={'formatter': 'length-prefix (implied)'},
